@@ -239,6 +239,7 @@ ExecNode(cx, st0, n, line) ==
            ELSE LET ls == Leaves(v.v) IN
              IF \E i \in 1..Len(ls) : ~ls[i].ok THEN Undecided(st0)
              ELSE IoCheck(cx, WriteAll(cx, st0, [i \in 1..Len(ls) |-> ls[i].s]), line)
+    [] n.t = "snap" -> st0      \* a tag registered by the embedding program that renders nothing (the harness's probe)
     [] n.t = "assign" ->
          LET v == Eval(n.e, st0.env) IN
            IF v.r = "err" THEN Fail(cx, st0, line, "eval")
